@@ -1797,7 +1797,7 @@ class NumericMixin(MonadMixin):
             if isinstance(monad, AttrMonad):
                 result_sql = [ 'OR', result_sql, [ 'IS_NULL', sql ] ]
             elif pg_bool:
-                result_sql = [ 'NOT', [ 'COALESCE', sql, [ 'VALUE', True ] ] ]
+                result_sql = [ 'NOT', [ 'COALESCE', sql, [ 'VALUE', False ] ] ]
             else:
                 result_sql = [ 'EQ', [ 'COALESCE', sql, [ 'VALUE', 0 ] ], [ 'VALUE', 0 ] ]
         return BoolExprMonad(result_sql, nullable=False)
